@@ -606,7 +606,10 @@ class SymArr:
     def __iter__(self):
         v = dim_value(self.shape_[0])
         if v is None:
-            raise Unsupported("iteration over an array of symbolic length")
+            def lazy_fail():
+                raise Unsupported("iteration over an array of symbolic length")
+                yield
+            return lazy_fail()
         return (self[i] for i in range(v))
 
     def item(self):
